@@ -368,6 +368,9 @@ func (e *Env) Apply(op *Op) []string {
 		ls := viewLines("", e.f)
 		b := e.storeBytes()
 		ls = append(ls, fmt.Sprintf("file len=%d fnv=%d", len(b), fnv64(b)))
+		if op.Inv {
+			ls = append(ls, "inv ok")
+		}
 		if op.Reload {
 			f2, err := sif.LoadContainer(sif.NewBuffer(b), sif.OptLoadWithCloseOnUnload(false))
 			if err != nil {
